@@ -135,4 +135,61 @@ ASSUME Gen = "C31" =>
          /\ PrintT(<<"GENERATED", Len(Cases31),
                      Cardinality({i \in 1..Len(Cases31) : Cases31[i].exp.demand = <<"resume">>}),
                      Cardinality({i \in 1..Len(Cases31) : Cases31[i].exp.demand = <<"full">>})>>)
+
+-----------------------------------------------------------------------------
+(* C27: (version x key exchange class x server key type) x server scenario x ClientAuthType x
+   client scenario.  Quick: every server scenario without client authentication, and every
+   (ClientAuthType, client scenario) pair with an authentic server, on every combination;
+   thorough: the full product. *)
+Combos27 ==
+  { <<10, 47, "R">>, <<10, 49171, "R">>, <<10, 49161, "P">>, <<10, 51, "R">>,
+    <<11, 53, "R">>, <<11, 49172, "R">>, <<11, 49161, "P">>, <<11, 57, "R">>,
+    <<12, 156, "R">>, <<12, 49199, "R">>, <<12, 49195, "P">>, <<12, 49195, "E">>, <<12, 158, "R">>,
+    <<13, 0, "R">>, <<13, 0, "P">>, <<13, 0, "E">> }
+  \cup (IF Tier = "quick" THEN {} ELSE
+        { <<10, 10, "R">>, <<10, 49162, "Q">>, <<11, 5, "R">>, <<12, 52393, "Q">>, <<12, 49191, "R">>,
+          <<12, 52394, "R">>, <<12, 61, "R">>, <<13, 0, "Q">> })
+SScens27 == {"Trusted", "UntrustedRoot", "Expired", "NotYetValid", "WrongName", "WrongKey", "BadLeafSig",
+             "CorruptSKXSig", "CorruptSKXParams", "CorruptServerFinished", "CorruptClientFinished"}
+CScens27 == {"NoClientCert", "ClientTrusted", "ClientUntrusted", "ClientExpired", "ClientWrongKey",
+             "ClientServerEKU", "CorruptClientCV"}
+SApplicable(sc, co) == sc \in {"CorruptSKXSig", "CorruptSKXParams"} => co[1] <= 12 /\ Tbl(co[2]).kx # "RSA"
+CApplicable(cs, co) == cs = "CorruptClientCV" => co[1] <= 12
+CKeyFor(co, a, i) == IF co[1] < 12 THEN Pick(<<"P", "R">>, a + i + co[2]) ELSE Pick(<<"E", "P", "R">>, a + i + co[2] + Seed)
+
+Mk27(co, sc, cs, a) ==
+  LET o == [vers |-> co[1], suite |-> co[2], key |-> co[3], scen |-> sc, cscen |-> cs, auth |-> a,
+            fired |-> IF cs = "CorruptClientCV" /\ a >= 1 THEN cs
+                      ELSE IF sc \in ServerWire \cup {"CorruptClientFinished"} THEN sc ELSE "",
+            std |-> [server_chain_ok |-> ExpectedStd(sc).chain, server_key_ok |-> ExpectedStd(sc).key,
+                     client_sent |-> ExpectedCStd(cs).sent, client_chain_ok |-> ExpectedCStd(cs).chain,
+                     client_key_ok |-> ExpectedCStd(cs).key]]
+  IN [id |-> 0, vers |-> co[1], suite |-> co[2], key |-> co[3], scen |-> sc, cscen |-> cs, auth |-> a,
+      ckey |-> CKeyFor(co, a, Len(cs)), exp |-> AuthDemand(o)]
+
+Cases27 == Number(
+  IF Tier = "quick"
+  THEN { Mk27(co, sc, "NoClientCert", 0) : co \in Combos27, sc \in SScens27 }
+       \cup { Mk27(co, "Trusted", cs, a) : co \in Combos27, cs \in CScens27, a \in 0..4 }
+       \cup { Mk27(co, sc, "ClientTrusted", 4) : co \in Combos27, sc \in {"WrongKey", "Expired", "CorruptServerFinished"} }
+  ELSE { Mk27(co, sc, cs, a) : co \in Combos27, sc \in SScens27, cs \in CScens27, a \in 0..4 } )
+
+Cases27A == SelectSeq(Cases27, LAMBDA x : SApplicable(x.scen, <<x.vers, x.suite, x.key>>) /\ CApplicable(x.cscen, <<x.vers, x.suite, x.key>>)
+                                         /\ ~(x.cscen = "CorruptClientCV" /\ x.scen \in ServerWire \cup {"CorruptClientFinished"}))
+
+ASSUME Gen = "C27" =>
+         /\ ndJsonSerialize("c27_cases.ndjson", Cases27A)
+         /\ PrintT(<<"GENERATED", Len(Cases27A),
+                     Cardinality({i \in 1..Len(Cases27A) : Cases27A[i].exp.clientMustFail}),
+                     Cardinality({i \in 1..Len(Cases27A) : Cases27A[i].exp.serverMustFail}),
+                     Cardinality({i \in 1..Len(Cases27A) : Cases27A[i].exp.mustComplete})>>)
+
+-----------------------------------------------------------------------------
+(* C28: the configuration pairs of C24 that have to complete, each fresh and (every second one)
+   followed by a resumed connection; the demanded outcome is the same for all: log = projection of
+   the wire (Problems28 = {}). *)
+Cases28 == Number({ [x EXCEPT !.two = (x.c.tickets /\ x.s.tickets)] : x \in {y \in Honest24 : y.exp.mode = "must"} })
+ASSUME Gen = "C28" =>
+         /\ ndJsonSerialize("c28_cases.ndjson", Cases28)
+         /\ PrintT(<<"GENERATED", Len(Cases28), Cardinality({i \in 1..Len(Cases28) : Cases28[i].two})>>)
 =============================================================================
